@@ -55,6 +55,21 @@ CHECKS = {
         technique="TLA+ design spec Match (confidence calculus in exact rational arithmetic, both back ends' scan wrappers) checked by TLC against the contract over the full product of a small domain; TLC-generated points scored by the real MatchSignature (binding); seeded scan cases on both real back ends validated by TLC against ScanContract with cross-event relations (monotone in threshold, exact => full)",
         text="TLC evaluates ~945k (thorough ~10M) abstract (topology, signature, configuration) points with rational arithmetic, including the 0/0 entropy case, and shows every alert is justified, in [0,1], above the threshold, monotone and exact=>full; 1200 (6000) of the points are scored by the real code and must agree with the model to 1e-9; 250 (1500) seeded cases are scanned on the real Pebble and JSON stores in both modes at 5-7 thresholds and each result list and its relation to the earlier ones is validated by TLC.",
         note=TRUST + "; well-formed signatures (entropy in [0,8], tolerance >= 0); required-call containment computed independently by the orchestrator"),
+    "C09": dict(
+        level="model_checking", ref="3/C09",
+        technique="TLA+ contract DiffReportContract (Partition, NamePairs, Counters) + design spec FnMatch (matcher with map order as nondeterminism) model-checked by TLC; generated file pairs diffed by the real cli.ComputeDiff and validated by TLC; zipper clause validated on the real Zipper's private maps (in-package overlay) against Trace_Zipper",
+        text="TLC exhausts all (old,new) files of <=3 functions over 3 shapes x fates in the matcher's design model; 40 (thorough 240) generated file pairs with 3-12 functions each (kept, edited, renamed, added, removed; methods, closures, twins) go through the real diff and every report is validated by TLC; for name-identical pairs the real zipper's maps are checked to be a one-to-one kind/type-respecting matching with added/removed = the unpaired instructions.",
+        note=TRUST + "; names unique per generated file; `modified` counts renames (code's definition)"),
+    "C19": dict(
+        level="model_checking", ref="3/C09",
+        technique="TLA+ contract DiffReportContract (RenameOnly up to indistinguishable twins, Threshold, Similarity) + design spec FnMatch checked by TLC for every order and every small file pair; real reports and real TopologySimilarity values (both directions) validated by TLC",
+        text="TLC proves on the design model (all pairs <=3 functions, all map orders in the legacy mode, the fixed order in the repaired mode) that pure renames are recognised and the outcome is order-independent; generated pairs rich in same-shape and identical-body renames are diffed by the real code, and the measured similarities (symmetric, in [0,1], exactly 1 for a renamed copy) are validated by TLC.",
+        note=TRUST + "; identical-body twins are interchangeable rename targets"),
+    "C10": dict(
+        level="model_checking", ref="3/C10",
+        technique="TLA+ design specs Workers (all completion orders x all admissible unstable-sort results) and FnMatch (all map orders) model-checked by TLC; functional-dependency contract Determinism validated by TLC over digests of repeated `sfw check|diff|scan` process runs under GOMAXPROCS 1/2/16",
+        text="The design models show exactly when the output is schedule-/order-independent (total comparator, fixed iteration order) and fail otherwise; the real CLI is run 6 (thorough 15) times per input and command in separate processes with GOMAXPROCS 1, 2, 16 on trees with several packages, several files per package, identical short names and many tied candidates; TLC checks that the masked output digest is a function of (command, input).",
+        note=TRUST + "; the contract is a thin functional-dependency invariant: detection power comes from the drivers' repetition and the tie-rich inputs the models call for"),
 }
 
 NOT_YET = {}
